@@ -368,21 +368,22 @@ func NewWALDecoder(rd io.Reader) *WALDecoder {
 func (dec *WALDecoder) Decode() (*TimedWALMessage, error) {
 	b := make([]byte, 4)
 
-	n, err := dec.rd.Read(b)
+	// Every field is read in full: a reader may hand out fewer bytes than asked for
+	// without an error (a file does, at its end), and the rest of the buffer would
+	// silently stay zero.
+	n, err := io.ReadFull(dec.rd, b)
 	if errors.Is(err, io.EOF) {
-		if n > 0 {
-			// the log ends inside a record's checksum: a torn write, not a clean end
-			return nil, DataCorruptionError{fmt.Errorf("failed to read checksum: %v (read: %d, wanted: %d)", err, n, len(b))}
-		}
+		// no byte of a record: the clean end of the log
 		return nil, err
 	}
 	if err != nil {
-		return nil, DataCorruptionError{fmt.Errorf("failed to read checksum: %v", err)}
+		// (io.ErrUnexpectedEOF: the log ends inside a record's checksum: a torn write, not a clean end)
+		return nil, DataCorruptionError{fmt.Errorf("failed to read checksum: %v (read: %d, wanted: %d)", err, n, len(b))}
 	}
 	crc := binary.BigEndian.Uint32(b)
 
 	b = make([]byte, 4)
-	_, err = dec.rd.Read(b)
+	_, err = io.ReadFull(dec.rd, b)
 	if err != nil {
 		return nil, DataCorruptionError{fmt.Errorf("failed to read length: %v", err)}
 	}
@@ -396,7 +397,7 @@ func (dec *WALDecoder) Decode() (*TimedWALMessage, error) {
 	}
 
 	data := make([]byte, length)
-	n, err = dec.rd.Read(data)
+	n, err = io.ReadFull(dec.rd, data)
 	if err != nil {
 		return nil, DataCorruptionError{fmt.Errorf("failed to read data: %v (read: %d, wanted: %d)", err, n, length)}
 	}
